@@ -321,3 +321,34 @@ Proof.
               (proj1 (HD id)) (proj1 (HU id)) (proj2 (HD id)) (proj2 (HU id)) Hties t k) as [E1 E2].
   cbv zeta in E1, E2. split; [exact E1|]. split; [exact E2|exact C].
 Qed.
+
+(* ---------- what the hash comparison cannot see ---------- *)
+(* a catch-up pass on a node whose compared hashes are equal changes nothing, whatever lies below it *)
+Lemma sync_node_blind legacy f D U dev parent id now nl ls nu us :
+  let parent' := if bytes_eqb parent str_root then str_all else parent in
+  get_nodes D parent' id true = nl :: ls -> get_nodes U parent' id true = nu :: us ->
+  forallb edge_deleted (nu :: us) && (legacy || bytes_eqb (e_down nl) dev) = false ->
+  (if bytes_eqb (e_down nl) dev then N.lxor (e_hash nl) (xor_epts nl) else e_hash nl) =
+  (if bytes_eqb (e_down nl) dev then N.lxor (e_hash nu) (xor_epts nu) else e_hash nu) ->
+  sync_node legacy f D U dev parent id now = (D, U).
+Proof.
+  cbv zeta. intros HD HU Hdel Hh.
+  destruct f as [|f]; cbn [sync_node]; rewrite HD, HU, Hdel, Hh, N.eqb_refl; reflexivity.
+Qed.
+
+(* the same point written to two sibling nodes, one on each side, during an outage: both sides carry the same
+   device hash (a point's CRC does not cover its node, hashes are combined by XOR), every stored hash is the
+   correct Merkle hash, and no catch-up ever changes either side *)
+Definition id_e : bytes := [101%N].
+Definition twin : point := ptt [119%N] 9 0x4014000000000000%N [].
+Definition common2 : list op := common ++ [mk id_e id_dev 4; NodePts id_e [ptt [118%N] 5 0x4000000000000000%N []]].
+Definition blD : store := fold_left wr (mk id_dev str_root 1 :: common2 ++ [NodePts id_c [twin]]) (mkStore [] [] [] 0%N).
+Definition blU : store :=
+  fold_left wr ([mk id_ur str_root 1; mk id_dev id_ur 1] ++ common2 ++ [NodePts id_e [twin]]) (mkStore [] [] [] 0%N).
+Definition dev_tree (st : store) : list edge_view := filter (fun v => negb (bytes_eqb (v_down v) id_ur)) (project st).
+
+Lemma hash_blind_example :
+  catchup false 8 blD blU id_dev 0%Z = (blD, blU) /\ agree (blD, blU) = false /\
+  blind_only id_dev (dev_tree blD) (dev_tree blU) = true /\
+  spec_hashes_ok (project blD) = true /\ spec_hashes_ok (project blU) = true.
+Proof. vm_compute. repeat split; reflexivity. Qed.
